@@ -566,7 +566,8 @@ def c08_families(rng, tier):
         k = 2 + i % 6
         # (the choice must be independent of the size: `i % 3` is a function of `i % 6`)
         h = card_or_blank_multiset(rng, k, (10, 30)[rng.below(2)]) if rng.below(3) == 0 else rand_hand(rng, k)
-        cats["size%d" % k] = cats.get("size%d" % k, 0) + 1
+        key = "size%d_%s" % (k, "with_blank" if 0 in h else ("repeat" if len(set(h)) < k else "distinct_cards"))
+        cats[key] = cats.get(key, 0) + 1
         hands.append(line("shiftn %d" % k, h))
     val = []
     for i in range(n // 2):
